@@ -22,7 +22,7 @@
 (***************************************************************************)
 EXTENDS Integers, Sequences, FiniteSets, TLC
 
-CONSTANTS Procs, NameOf,      \* process -> the counter name it increments (once)
+CONSTANTS Procs, NamesOf,     \* process -> the sequence of counter names it increments, one after the other (once each)
           Names, BucketOf,    \* name -> bucket
           Buckets,
           K,                  \* record slots per page
@@ -40,7 +40,7 @@ PageOf(s) == (s + K - 1) \div K            \* page (1-based) holding slot s
 
 VARIABLES size, limit, head, rec,
           alive, maplen, pc, ph, rm, lhead, off, lim, start, tries, old, vslot, vold, err,
-          done          \* done[p]: the process's atomic add completed
+          done          \* done[p]: number of the process's atomic adds that completed
 shared == <<size, limit, head, rec>>
 locals == <<maplen, pc, ph, rm, lhead, off, lim, start, tries, old, vslot, vold, err>>
 vars == <<shared, alive, locals, done>>
@@ -66,8 +66,10 @@ Init ==
   /\ start = [p \in Procs |-> 0] /\ tries = [p \in Procs |-> 0] /\ old = [p \in Procs |-> 0]
   /\ vslot = [p \in Procs |-> 0] /\ vold = [p \in Procs |-> 0]
   /\ err = [p \in Procs |-> "none"]
-  /\ done = [p \in Procs |-> FALSE]
+  /\ done = [p \in Procs |-> 0]
 
+(* the name the process is working on: the first one it has not completed *)
+NameOf == [p \in Procs |-> NamesOf[p][IF done[p] + 1 > Len(NamesOf[p]) THEN Len(NamesOf[p]) ELSE done[p] + 1]]
 Bk(p) == BucketOf[NameOf[p]]
 Visible(p, s) == s >= 1 /\ s <= MaxSlots /\ PageOf(s) <= maplen[p]     \* entryAt's bounds check
 Set(v, p, x) == [v EXCEPT ![p] = x]
@@ -234,9 +236,17 @@ VCas(p) ==
   /\ pc[p] = "V_cas"
   /\ IF rec[vslot[p]].val = vold[p]
      THEN /\ rec' = [rec EXCEPT ![vslot[p]].val = IF vold[p] + 1 > MaxVal THEN MaxVal ELSE vold[p] + 1]   \* sticks, never wraps
-          /\ done' = Set(done, p, TRUE) /\ pc' = Set(pc, p, "Done")
-     ELSE /\ UNCHANGED <<rec, done>> /\ pc' = Set(pc, p, "V_load")
-  /\ UNCHANGED <<size, limit, head, alive, rm, ph, maplen, lhead, off, lim, start, tries, old, vslot, vold, err>>
+          /\ done' = Set(done, p, done[p] + 1)
+          /\ IF done[p] + 1 < Len(NamesOf[p])
+             THEN \* the next counter of the same process: a fresh lookup with the mapping the process has now
+                  /\ pc' = Set(pc, p, "L_head") /\ ph' = Set(ph, p, 0) /\ rm' = Set(rm, p, FALSE)
+                  /\ lhead' = Set(lhead, p, 0) /\ off' = Set(off, p, 0) /\ lim' = Set(lim, p, 0)
+                  /\ start' = Set(start, p, 0) /\ tries' = Set(tries, p, 0) /\ old' = Set(old, p, 0)
+                  /\ vslot' = Set(vslot, p, 0) /\ vold' = Set(vold, p, 0)
+             ELSE /\ pc' = Set(pc, p, "Done")
+                  /\ UNCHANGED <<rm, ph, lhead, off, lim, start, tries, old, vslot, vold>>
+     ELSE /\ UNCHANGED <<rec, done, rm, ph, lhead, off, lim, start, tries, old, vslot, vold>> /\ pc' = Set(pc, p, "V_load")
+  /\ UNCHANGED <<size, limit, head, alive, maplen, err>>
 
 Kill(p) == /\ AllowKill /\ alive[p] /\ pc[p] # "Done"
            /\ alive' = Set(alive, p, FALSE)
@@ -271,7 +281,7 @@ ValueOf(n) == LET ss == {s \in Linked : s >= 1 /\ rec[s].name = n} IN IF ss = {}
 (* every counter equals the number of completed atomic adds, in every state *)
 WarmOf(n) == IF n = WarmName THEN WarmVal ELSE 0
 Sat(x) == IF x > MaxVal THEN MaxVal ELSE x
-ValuesExact == \A n \in Names : ValueOf(n) = Sat(WarmOf(n) + Cardinality({p \in Procs : NameOf[p] = n /\ done[p]}))
+ValuesExact == \A n \in Names : ValueOf(n) = Sat(WarmOf(n) + Cardinality({<<p, i>> \in Procs \X (1..4) : i <= done[p] /\ i <= Len(NamesOf[p]) /\ NamesOf[p][i] = n}))
 LimitMonotone == [][limit' >= limit /\ size' >= size]_vars
 ValuesMonotone == [][\A s \in 1..MaxSlots : rec'[s].val >= rec[s].val]_vars
 (* no surviving process is made to fail by what another process did or by its death *)
